@@ -6,30 +6,7 @@ from ..core import callee_key, callee_decl, strip_generics, Slice, edge_conditio
 from ..runner import bpath
 
 
-def split_qualified(fid):
-    """`<A<T> as B<T>>::rest` -> (A, B, rest) with generics stripped; plain paths -> (None, None, path)"""
-    if fid.startswith("<"):
-        depth = 0
-        for i, c in enumerate(fid):
-            if c == "<":
-                depth += 1
-            elif c == ">":
-                depth -= 1
-                if depth == 0:
-                    inner = fid[1:i]
-                    rest = fid[i + 1:].lstrip(":")
-                    # split on top-level " as "
-                    d2 = 0
-                    for j in range(len(inner)):
-                        ch = inner[j]
-                        if ch == "<":
-                            d2 += 1
-                        elif ch == ">":
-                            d2 -= 1
-                        elif d2 == 0 and inner.startswith(" as ", j):
-                            return strip_generics(inner[:j]), strip_generics(inner[j + 4:]), strip_generics(rest)
-                    return strip_generics(inner), None, strip_generics(rest)
-    return None, None, strip_generics(fid)
+from ..core import split_qualified, name_variants
 
 
 def fkey(body_or_id):
@@ -54,13 +31,29 @@ def self_type_of(F, root):
     return strip_generics(b.self_ty) if b is not None and b.self_ty else ""
 
 
+def callee_names(t):
+    """candidate generic-stripped names of a call's callee: declared path, resolved path, and for a
+    resolved `<A as B>::m` both `A::m` and `B::m`"""
+    out = []
+    for k in (callee_key(t), callee_decl(t)):
+        if not k:
+            continue
+        a, b, rest = split_qualified(k)
+        if a is None:
+            out.append(rest)
+        else:
+            out.append("%s::%s" % (a, rest))
+            if b:
+                out.append("%s::%s" % (b, rest))
+            out.append(strip_generics(k))
+    return out
+
+
 def calls_matching(body, rx, include_noise=False):
     r = re.compile(rx)
     out = []
     for bi, t in body.calls(include_noise=include_noise):
-        k = callee_key(t) or ""
-        d = callee_decl(t) or ""
-        if r.search(strip_generics(k)) or r.search(strip_generics(d)):
+        if any(r.search(n) for n in callee_names(t)):
             out.append((bi, t))
     return out
 
@@ -108,7 +101,11 @@ def agg_field(st, name):
 def cond_slice(F, c, through_calls=False):
     """provenance of the value a switch edge tests"""
     body = c.body
+    ck = "_slice_tc" if through_calls else "_slice"
+    if getattr(c, ck, None) is not None:
+        return getattr(c, ck)
     s = Slice(F, body, through_calls)
+    setattr(c, ck, s)
     if c.kind == "cmp":
         s.operand(c.a)
         s.operand(c.b)
@@ -126,9 +123,7 @@ def cond_slice(F, c, through_calls=False):
 
 def cond_calls(F, c, rx):
     """does the tested value derive from the result of a call matching rx"""
-    s = cond_slice(F, c)
-    r = re.compile(rx)
-    return any(x[0] == "call" and r.search(strip_generics(x[1])) for x in s.sources)
+    return cond_slice(F, c).has_call(rx)
 
 
 def cond_reads_field(F, c, adt_suffix, field):
@@ -281,8 +276,10 @@ def cmp_rel(F, c, is_x, is_y):
     if c.kind != "cmp" or c.truth is None:
         return None
     body = c.body
-    sa = Slice(F, body).operand(c.a)
-    sb = Slice(F, body).operand(c.b)
+    if getattr(c, "_sa", None) is None:
+        c._sa = Slice(F, body).operand(c.a)
+        c._sb = Slice(F, body).operand(c.b)
+    sa, sb = c._sa, c._sb
     op = c.op if c.truth else NEG[c.op]
     sym = SYM[op]
     if is_x(sa) and is_y(sb):
@@ -297,3 +294,60 @@ def const_operand(o):
     if o is not None and "c" in o:
         return str(o.get("v", o["c"]))
     return None
+
+
+# ---------------------------------------------------------------------- decision tables (pathsym)
+from .. import pathsym
+from ..pathsym import show as sym_show, mentions, agg_get, variant_of
+
+
+def table_of(ctx, rule, fn_body, what):
+    """decision table of a loop-free body; a function that is not loop-free (or too big) is a
+    fail-closed violation of the rule"""
+    try:
+        paths, ev = pathsym.decision_table(ctx.F, fn_body)
+        return paths
+    except pathsym.TooComplex as e:
+        ctx.bad(rule, "%s#table" % fkey(fn_body), "cannot build an exact decision table for %s: %s" % (what, e), "%s:%s" % (fn_body.file, fn_body.line))
+        return None
+
+
+def pick(exprs, pred, what):
+    """the unique expression among `exprs` satisfying pred (None if absent, 'ambiguous' raises)"""
+    c = [e for e in exprs if pred(e)]
+    if len(c) == 1:
+        return c[0]
+    return None
+
+
+def fld(base_pred, *names):
+    """predicate: expression is base.<names...> where the innermost base satisfies base_pred; a field
+    name matches with or without its enum-variant prefix ('Some.0' ~ '0')"""
+    def p(e):
+        cur = e
+        for n in reversed(names):
+            if cur[0] != "field" or not (cur[2] == n or cur[2].split(".")[-1] == n):
+                return False
+            cur = cur[1]
+        return base_pred(cur)
+    return p
+
+
+def par(idx):
+    return lambda e: e[0] == "param" and e[1] == idx
+
+
+def run_table(ctx, rule, key, paths, outcome_of, spec, loc_=None, extra_exprs=(), variant_universe=None, what=""):
+    """exhaustive comparison; records one obligation, returns the Table"""
+    try:
+        n, nbad, bad, tb = pathsym.check_table(paths, outcome_of, spec, extra_exprs=extra_exprs, variant_universe=variant_universe)
+    except pathsym.TooComplex as e:
+        ctx.bad(rule, key, "decision table too large for exhaustive evaluation: %s" % e, loc_)
+        return None
+    except KeyError as e:
+        ctx.bad(rule, key, "UNRECOGNISED-FORM: the decision uses an expression the rule cannot evaluate: %s" % (pathsym.show(e.args[0]) if e.args and isinstance(e.args[0], tuple) else e,), loc_)
+        return None
+    ctx.check(rule, key, nbad == 0,
+              "%s: decision table equals the specification on all %d worlds (%d paths)" % (what, n, len(paths)),
+              "%s: decision table differs from the specification in %d of %d worlds, e.g. %s" % (what, nbad, n, bad[:2]), loc_)
+    return tb
